@@ -397,6 +397,7 @@ def execute(sc):
         # round 8: the program ends with a return statement at its root (a
         # library module developed with a test game loop around it)
         luafile = luafile.rstrip(b'\n') + b'\nreturn main_marker\n'
+        core.bump(res['probes'], 'lua-source-ends-with-a-root-level-return')
     with world.World(env={'SND': 'drums'}) as w:
         w.mkdir('in')
         w.mkdir('out')
